@@ -25,8 +25,16 @@ def respJson (r : Resp) : Json :=
 
 def fwdJson : Fwd → Json
   | .plain m ps => Json.mkObj [("method", m), ("params", Json.arr ps.toArray)]
-  | .rawTx a tx n => Json.mkObj [("method", "eth_sendRawTransaction"), ("from", Json.str (hexOfBytes a)), ("tx", tx),
-      ("nonce", match n with | some k => Json.str (toString k) | none => Json.null)]
+  | .rawTx a tx n f _ =>
+    -- `rec`: what recovery of the submitted bytes must read back (C01.normAuto of the decoded transaction)
+    let e1559 := Model.Tx.wants1559 f
+    let num (x : Option Nat) : Json := Json.str (toString (Model.Tx.big x))
+    Json.mkObj [("method", "eth_sendRawTransaction"), ("from", Json.str (hexOfBytes a)), ("tx", tx),
+      ("nonce", match n with | some k => Json.str (toString k) | none => Json.null),
+      ("rec", Json.mkObj [("nonce", num f.nonce), ("gasPrice", if e1559 then Json.null else num f.gasPrice),
+        ("tip", if e1559 then num f.tip else Json.null), ("feeCap", if e1559 then num f.feeCap else Json.null),
+        ("gasLimit", num f.gasLimit), ("value", num f.value), ("data", Json.str (hexOfBytes f.data)),
+        ("to", match f.to with | some b => Json.str (hexOfBytes b) | none => Json.null)])]
 
 def membersOf (j : Json) : List (String × Json) :=
   match j with | .obj kvs => kvs.toList | _ => []
